@@ -74,7 +74,7 @@ static int do_replay(const char *path, unsigned flags)
     printf("RESULT: %d\n", r);
     printf("NONTRIVIAL: %d\n", rep.nontrivial);
     printf("HASH: %016llx\n", (unsigned long long)rep.case_hash);
-    printf("CLASSES: %08x\n", rep.classes);
+    printf("CLASSES: %016llx\n", (unsigned long long)rep.classes);
     if (r) { printf("KEY: %s\n", rep.key); printf("MSG: %s\n", rep.msg); }
     fflush(stdout);
     free(rep.render);
@@ -83,7 +83,7 @@ static int do_replay(const char *path, unsigned flags)
 
 struct Stats {
     unsigned long long cases = 0, nontrivial = 0, excluded = 0, skipped_budget = 0;
-    unsigned long long class_counts[32] = {0};
+    unsigned long long class_counts[64] = {0};
     std::unordered_set<uint64_t> nt_hashes;
     std::vector<std::string> samples;
     unsigned long long tape_bytes = 0;
@@ -192,7 +192,7 @@ int main(int argc, char **argv)
             st.cases++;
             st.tape_bytes += tape.size();
             st.excluded += rep.excluded;
-            for (int b = 0; b < 32; b++) if (rep.classes & (1u << b)) st.class_counts[b]++;
+            for (int b = 0; b < 64; b++) if (rep.classes & (1ull << b)) st.class_counts[b]++;
             if (rep.nontrivial && r == 0) {
                 st.nontrivial++;
                 bool fresh = st.nt_hashes.insert(rep.case_hash).second;
@@ -238,7 +238,7 @@ int main(int argc, char **argv)
     fprintf(f, " \"class_counts\": {");
     bool first = true;
     if (vp_executor.class_names)
-        for (int b = 0; b < 32 && vp_executor.class_names[b]; b++) {
+        for (int b = 0; b < 64 && vp_executor.class_names[b]; b++) {
             fprintf(f, "%s\"%s\": %llu", first ? "" : ", ", vp_executor.class_names[b], st.class_counts[b]);
             first = false;
         }
